@@ -140,6 +140,84 @@ fn run_case(c: Case, w: &mut Worker, tool: Option<&RefTool>) {
     }
 }
 
+/// The derivation functions themselves (through the hook re-exports) at parent leaf indices no
+/// end-to-end run can reach: child (seed, I), per-leaf randomizer and the chain start values for
+/// q up to 2^32-1 against the model's hash-sigs derivation.
+#[cfg(feature = "hooks")]
+fn derivation_sweep(ctx: &Ctx) -> Report {
+    use hbs_lms::verif_hooks as vh;
+    let mut r = Report::new();
+    let mut rng = ctx.rng("c08-derive");
+    for alg in model::ALL_ALGS {
+        let cfg = lcfg(alg);
+        let n = alg.n();
+        for rep in 0..ctx.size(2, 10) {
+            let parent = hss::TreeId { seed: rng.bytes(n), i: rng.bytes(16).try_into().unwrap() };
+            let mut qs: Vec<u32> = vec![0, 1, 255, 256, 257, 65535, 65536, 65537, (1 << 20) - 1, 1 << 20, 1 << 24, (1 << 25) - 1, 1 << 25, 0x0100_0100, 1 << 31, u32::MAX];
+            for _ in 0..ctx.size(40, 400) {
+                qs.push(rng.next() as u32 >> rng.below(32));
+            }
+            for q in qs {
+                let res = crate::with_hash!(alg, H, {
+                    libcall::guard(|| {
+                        let p = vh::SeedAndLmsTreeIdentifier::<H>::new(&libcall::seed_of::<H>(&parent.seed), &parent.i);
+                        let child = vh::generate_child_seed_and_lms_tree_identifier::<H>(&p, &q);
+                        let c = vh::generate_signature_randomizer::<H>(&p, &q);
+                        (child.seed.as_slice().to_vec(), child.lms_tree_identifier.to_vec(), c.as_slice().to_vec())
+                    })
+                });
+                r.eval();
+                let replay = || J::obj().with("property", J::s("C08")).with("hash", J::s(alg.name())).with("parent_seed", J::hex(&parent.seed)).with("parent_I", J::hex(&parent.i)).with("q", J::Int(q as i128));
+                match res {
+                    Err(p) => r.violation(&format!("C08:derive:panic:{}", p.site()), &format!("derivation panicked for parent leaf {q}: {}", p.message), replay()),
+                    Ok((seed, i, c)) => {
+                        let want = hss::child_tree_id(&cfg, &parent, q);
+                        if seed != want.seed || i != want.i.to_vec() {
+                            r.violation(
+                                &format!("C08:derive:child_tree:{}:q{}", alg.name(), if q < 65536 { "<2^16" } else { ">=2^16" }),
+                                &format!("child tree below parent leaf {q}: library (seed {}, I {}), hash-sigs derivation (seed {}, I {})", model::json::hex(&seed), model::json::hex(&i), model::json::hex(&want.seed), model::json::hex(&want.i)),
+                                replay(),
+                            );
+                        }
+                        if c != hss::randomizer(&cfg, &parent, q) {
+                            r.violation(&format!("C08:derive:randomizer:{}:q{}", alg.name(), if q < 65536 { "<2^16" } else { ">=2^16" }), &format!("per-leaf randomizer for leaf {q} differs from the hash-sigs derivation"), replay());
+                        }
+                        r.count("derivations_compared", 1);
+                    }
+                }
+                r.distinct(&format!("derive|{}|{}|{}", alg.name(), rep, q));
+            }
+            // chain start values of one-time keys at far-away leaves, every W
+            for wv in WS {
+                for q in [0u32, 65536 + rep as u32, (1 << 25) - 1] {
+                    let res = crate::with_hash!(alg, H, {
+                        libcall::guard(|| {
+                            let param = hbs_lms::HssParameter::<H>::new(hbs_lms::LmotsAlgorithm::from(model::params::code_of_w(wv)), hbs_lms::LmsAlgorithm::from(model::params::lms_code_of_height(5)));
+                            let k = vh::generate_lmots_private_key::<H>(parent.i, q.to_be_bytes(), libcall::seed_of::<H>(&parent.seed), *param.get_lmots_parameter());
+                            k.key.as_slice().iter().map(|x| x.as_slice().to_vec()).collect::<Vec<_>>()
+                        })
+                    });
+                    r.eval();
+                    if let Ok(xs) = res {
+                        let p = model::params::ots_rfc(n, wv).p;
+                        let bad = xs.len() != p || (0..p).any(|i| xs[i] != model::lmots::ots_secret(&cfg, &parent.i, q, i as u16, &parent.seed));
+                        if bad {
+                            r.violation(&format!("C08:derive:chain_starts:{}:w={wv}", alg.name()), &format!("one-time key of leaf {q}: chain start values differ from x[i] = H(I||q||i||0xff||seed)"), J::obj().with("hash", J::s(alg.name())).with("q", J::Int(q as i128)).with("w", J::Int(wv as i128)));
+                        }
+                        r.count("one_time_keys_compared", 1);
+                    }
+                }
+            }
+        }
+    }
+    r
+}
+
+#[cfg(not(feature = "hooks"))]
+fn derivation_sweep(_ctx: &Ctx) -> Report {
+    Report::new()
+}
+
 pub fn run(ctx: &Ctx) -> Report {
     let mut rng = ctx.rng("c08");
     let mut cases: Vec<Case> = Vec::new();
@@ -237,10 +315,12 @@ pub fn run(ctx: &Ctx) -> Report {
     let tool = RefTool::new(ctx, "c08");
     let tool_ref = tool.as_ref();
     let mut rep = par_run(ctx, cases, |c, w| run_case(c, w, tool_ref));
+    rep.merge(derivation_sweep(ctx));
     rep.rule = "cases = (hash, parameter list, seed) with seeds from classes {zero, ones, counting, single bit, random}; \
                 distinct_nontrivial counts distinct (hash, parameter list, seed class incl. index); every case compares the \
                 private blob and public key with the model, SHA-256/32 real-height cases also with the files written by the \
-                hash-sigs tool, multi-level cases also the embedded child public keys at several counters"
+                hash-sigs tool, multi-level cases also the embedded child public keys at several counters; \
+                the derivation functions themselves (hook re-exports) are compared with the model at parent leaf indices 0..2^32-1 (boundaries 2^8, 2^16, 2^20, 2^24, 2^25 and random): child seed / tree identifier, per-leaf randomizer, chain start values for every W"
         .into();
     if tool.is_none() {
         rep.inconclusive("reference tool not available");
